@@ -656,6 +656,7 @@ class Emit:
                 return (setd(rt, c) if dst else c + ';') + post
             if callee and callee[0] == '@':
                 cn = s.fname(callee)
+                cn = {'bcmp': 'memcmp'}.get(cn, cn)
                 fd = s.m.funcs.get(callee) or s.m.decls.get(callee)
                 if fd is not None and fd.va or fty is not None and fty.va or cn in BUILTIN:
                     c = '%s(%s)' % (cn, ', '.join(a.c for a in args))
@@ -682,7 +683,7 @@ class Emit:
         # constant length: CBMC's built-in models; symbolic length: bounded byte loops (rt/vll_rt.h) - CBMC's
         # array-theory encoding of variable-length memset/memcpy does not scale
         const_len = len(args) > 2 and re.fullmatch(r'\(\(uint\d+_t\)\d+ULL\)', args[2].c) is not None
-        pre = '' if const_len else 'vll_'
+        pre = '' if (const_len or not BYTELOOPS) else 'vll_'
         if n.startswith('memcpy.') : return pre + 'memcpy(%s, %s, %s)' % (args[0].c, args[1].c, args[2].c)
         if n.startswith('memmove.'): return pre + 'memmove(%s, %s, %s)' % (args[0].c, args[1].c, args[2].c)
         if n.startswith('memset.'): return pre + 'memset(%s, %s, %s)' % (args[0].c, args[1].c, args[2].c)
@@ -702,9 +703,11 @@ class Emit:
         if n.startswith('abs.'): return '(%s)(%s < 0 ? -%s : %s)' % (s.ctype(rt), s.sx(args[0]), s.sx(args[0]), s.sx(args[0]))
         raise NotImplementedError('intrinsic ' + name)
 
+import os
+BYTELOOPS = os.environ.get('VLL_BYTELOOPS') == '1'   # variable-length memset/memcpy as bounded byte loops instead of CBMC's built-ins
 LIBCGLOBALS = {'__libc_single_threaded', 'stdout', 'stderr', 'stdin', 'environ', 'timezone', 'daylight'}   # real libc objects: declared extern, no prefix
 RTGLOBALS = {'vra_loc_overflow_prunes', 'vll_fatal_ok', 'vll_fatal_seen', 'vll_exc', 'vll_exc_obj', 'vll_exc_type'}
-BUILTIN = {'__CPROVER_assume', '__CPROVER_assert', 'malloc', 'free', 'calloc', 'realloc', 'memcpy', 'memset', 'memmove', 'strlen', 'strnlen', 'memchr', 'memcmp', 'strcmp', 'strncmp', 'strcpy', 'strncpy', 'strchr', 'strrchr', 'strstr', 'exit', 'abs', 'labs',
+BUILTIN = {'bcmp', '__CPROVER_assume', '__CPROVER_assert', 'malloc', 'free', 'calloc', 'realloc', 'memcpy', 'memset', 'memmove', 'strlen', 'strnlen', 'memchr', 'memcmp', 'strcmp', 'strncmp', 'strcpy', 'strncpy', 'strchr', 'strrchr', 'strstr', 'exit', 'abs', 'labs',
            'vnd_u64', 'vnd_range', 'vassume', 'vassert_at', 'vwitness_at', 'vobs', 'vll_abort', 'vll_assert_fail', 'vll_printf', 'vll_fprintf', 'vll_puts',
            'vll_cxa_atexit', 'vll_guard_acquire', 'vll_guard_release', 'vll_pure_virtual',
            'vra_load', 'vra_store', 'vra_rmw', 'vra_cas', 'vra_fence', 'vra_set_thread', 'vra_thread', 'vra_na_read', 'vra_na_write', 'vra_forget', 'vra_register', 'vra_stale_reads', 'vll_qpool_set'}
